@@ -912,8 +912,11 @@ Proof.
 Qed.
 Print Assumptions scalar_setter_contracts.
 
-Theorem set_frequency_vector_contract : forall s fv rb,
-  crun (env_set_fv HOk s fv rb) gen_contract_vnacal_new_set_frequency_vector = lift (check_set_fv s fv rb).
+(* check_set_fv2 = check_set_fv of NewModel.v followed - when the C text has it (gen_fv_tests_m_error, fix DM90) - by the
+   test that the new vector equals the one in force while a measurement error model is set *)
+Theorem set_frequency_vector_contract : forall s inforce fv rb,
+  crun (env_set_fv HOk s inforce fv rb) gen_contract_vnacal_new_set_frequency_vector =
+  lift (check_set_fv2 gen_fv_tests_m_error s inforce fv rb).
 Proof. exact set_fv_contract_l. Qed.
 Print Assumptions set_frequency_vector_contract.
 
@@ -1034,7 +1037,7 @@ Proof. exact n2_refusal_erasable_l. Qed.
 Print Assumptions new_settings_refusal_erasable.
 
 Theorem new_settings_satisfiable :
-  let s0 := mkn2 (mknsum 0 2 2 3 false false (mknew [] 0 0 0 None)) (Some (1 # 1000000)) (Some (1 # 1000000)) 30 (Some (1 # 1000)) in
+  let s0 := mkn2 (mknsum 0 2 2 3 false false (mknew [] 0 0 0 None)) (Some (1 # 1000000)) (Some (1 # 1000000)) 30 (Some (1 # 1000)) [] in
   n2_inv s0 /\
   snd (n2_step s0 (N2SetPvalue HOk (Some 2%Q))) = RRefused VM1 (Via USAGE) /\
   snd (n2_step s0 (N2SetMError HOk (mkmerrx 1 None (Some [XFin 1%Q]) None false false))) = RRefused VM1 (Via USAGE) /\
@@ -1106,3 +1109,15 @@ Theorem errno_dependent_report : forall f c1 c2 p entry clob (einval : bool),
   mkr e (match p with PNoErrorFn => [] | _ => [(cat, e)] end).
 Proof. exact errno_dependent_report_l. Qed.
 Print Assumptions errno_dependent_report.
+
+(* 13. vnacal_new_set_frequency_vector under a measurement error model (fix DM90; the test is one more refusing step in front
+       of the first write, so section 10's refused-unchanged / erasable theorems cover it through the generated list). *)
+Theorem new_settings_fv_under_model :
+  gen_fv_tests_m_error = true ->
+  let v := [Some 1%Q; Some 2%Q; Some 3%Q] in
+  let s := mkn2 (mknsum 0 2 2 3 true true (mknew [] 0 0 0 None)) (Some (1 # 1000000)) (Some (1 # 1000000)) 30 (Some (1 # 1000)) v in
+  n2_step s (N2SetFv HOk (Some [Some 1%Q; Some 2%Q; Some 4%Q]) false) = (s, RRefused VM1 (Via USAGE)) /\
+  n2_step s (N2SetFv HOk (Some v) false) = (s, RPass) /\
+  snd (n2_step (with_sum s (set_merror false)) (N2SetFv HOk (Some [Some 1%Q; Some 2%Q; Some 4%Q]) false)) = RPass.
+Proof. exact n2_fv_under_model_l. Qed.
+Print Assumptions new_settings_fv_under_model.
